@@ -26,7 +26,7 @@ Inductive action :=
 | AAdd (h : hid)                 (* d.add_handler(h) *)
 | ARemove (h : hid)              (* d.remove_handler(h) *)
 | AIs (h : hid)                  (* d.is_handler(h), result logged *)
-| ADispatch (e : ev) (a : argc)  (* d.dispatch(e, tok, *args(a), **kwargs(a)), tok drawn when executed *)
+| ADispatch (e : ev) (a : argc)  (* d.dispatch(e, tok, args(a)..., kwargs(a)...), tok drawn when executed *)
 | ASetEnabled (b : bool)         (* d.dispatch_enabled = b *)
 | AClear                         (* d.clear() *)
 | ARaise                         (* raise ScriptError *)
@@ -309,8 +309,8 @@ Definition mapping := list (ev * meth).        (* a dict name -> method name, in
 Record cdef := {
   cd_cls : cls;
   cd_base : option cls;          (* single base (None: a fresh root) *)
-  cd_names : list ev;            (* event_handler(*names, ...) *)
-  cd_maps : list (ev * meth);    (* event_handler(..., **mappings) *)
+  cd_names : list ev;            (* positional arguments of event_handler: names *)
+  cd_maps : list (ev * meth);    (* keyword arguments of event_handler: name=method *)
 }.
 
 Definition ctable := list (cls * mapping).     (* what getattr(cls, '__events__') gives, per class *)
